@@ -7,6 +7,12 @@ extern crate alloc;
 
 mod lender;
 
+/// Verification access to the otherwise private lender types.
+#[cfg(aranya_verif)]
+pub mod verif_lender {
+    pub use super::lender::{Lender, Loan};
+}
+
 use alloc::{collections::btree_map::BTreeMap, sync::Arc};
 
 use aranya_crypto::{
@@ -94,6 +100,8 @@ where
     type OpenCtx = OpenCtx<CS>;
 
     fn setup_seal_ctx(&self, id: LocalChannelId) -> Result<Self::SealCtx, Error> {
+        #[cfg(aranya_verif)]
+        let _verif = crate::verif::mem_lock(Arc::as_ptr(&self.inner) as usize);
         let mut inner = self.inner.lock().assume("poisoned")?;
         // Find the channel for this ID.
         let val = inner.chans.get_mut(&id).ok_or(Error::NotFound(id))?;
@@ -108,6 +116,8 @@ where
     }
 
     fn setup_open_ctx(&self, id: LocalChannelId) -> Result<Self::OpenCtx, Error> {
+        #[cfg(aranya_verif)]
+        let _verif = crate::verif::mem_lock(Arc::as_ptr(&self.inner) as usize);
         let mut inner = self.inner.lock().assume("poisoned")?;
         // Find the channel for this ID.
         let val = inner.chans.get_mut(&id).ok_or(Error::NotFound(id))?;
@@ -144,6 +154,8 @@ where
     }
 
     fn exists(&self, id: LocalChannelId) -> Result<bool, Error> {
+        #[cfg(aranya_verif)]
+        let _verif = crate::verif::mem_lock(Arc::as_ptr(&self.inner) as usize);
         Ok(self
             .inner
             .lock()
@@ -169,6 +181,8 @@ where
         label_id: LabelId,
         peer_id: DeviceId,
     ) -> Result<LocalChannelId, Self::Error> {
+        #[cfg(aranya_verif)]
+        let _verif = crate::verif::mem_lock(Arc::as_ptr(&self.inner) as usize);
         let mut inner = self.inner.lock().assume("poisoned")?;
         let id = LocalChannelId::new(inner.next_chan_id);
         inner.next_chan_id = inner
@@ -190,16 +204,22 @@ where
     }
 
     fn remove(&self, id: LocalChannelId) -> Result<(), Self::Error> {
+        #[cfg(aranya_verif)]
+        let _verif = crate::verif::mem_lock(Arc::as_ptr(&self.inner) as usize);
         self.inner.lock().assume("poisoned")?.chans.remove(&id);
         Ok(())
     }
 
     fn remove_all(&self) -> Result<(), Self::Error> {
+        #[cfg(aranya_verif)]
+        let _verif = crate::verif::mem_lock(Arc::as_ptr(&self.inner) as usize);
         self.inner.lock().assume("poisoned")?.chans.clear();
         Ok(())
     }
 
     fn remove_if(&self, mut f: impl FnMut(RemoveIfParams) -> bool) -> Result<(), Self::Error> {
+        #[cfg(aranya_verif)]
+        let _verif = crate::verif::mem_lock(Arc::as_ptr(&self.inner) as usize);
         self.inner
             .lock()
             .assume("poisoned")?
@@ -216,6 +236,8 @@ where
     }
 
     fn exists(&self, id: LocalChannelId) -> Result<bool, Self::Error> {
+        #[cfg(aranya_verif)]
+        let _verif = crate::verif::mem_lock(Arc::as_ptr(&self.inner) as usize);
         Ok(self
             .inner
             .lock()
